@@ -390,9 +390,16 @@ func streamText(results []ResT) string {
 		if len(units) == 0 {
 			units = []string{"ns/op"}
 		}
-		sb.WriteString("Benchmark" + r.Name + " 1")
+		// a benchmark line is split at blanks: names keep none in the streamed form
+		name := strings.Map(func(c rune) rune {
+			if c == ' ' || c == '\t' {
+				return -1
+			}
+			return c
+		}, r.Name)
+		sb.WriteString("Benchmark" + name + " 1")
 		for i, u := range units {
-			fmt.Fprintf(&sb, " %d %s", i+1, u)
+			fmt.Fprintf(&sb, " %d %s", i+1, strings.TrimSpace(u))
 		}
 		sb.WriteString("\n")
 	}
